@@ -243,7 +243,7 @@ PLANR = dict(name='prepareRunPlan validated (random graphs up to 60 commits)', p
 
 PROPS = {
     'C01': dict(corr=[GS, RT, BD, DAG, E01, E01L, E01V]),
-    'C02': dict(level='translation_validation', corr=[PLAN4, PLAN5, PLAN6, PLANR, RUN]),
+    'C02': dict(level='translation_validation', corr=[PLAN4, PLAN5, PLAN6, PLANR, RUN, PFORK, E14]),
     'C03': dict(corr=[FU]),
     'C04': dict(corr=[GC, PLAN5, PLANR, RUN]),
     'C05': dict(corr=[RB, RBQ, RBC, RBW, E05]),
